@@ -196,6 +196,10 @@ def run_job(spec):
     shims.install_count_shims(markers=bool(spec.get('markers')), summary=not spec.get('no_summary'))
     monitors = get_monitors(spec['monitors'])
     U = Universe(spec)
+    lemma_fails = []
+    if not spec.get('no_summary'):
+        from harness import lemmas
+        lemma_fails = lemmas.check_for([lemmas.effective_options(election_options(spec))])
     eng = core.Engine(timeout_ms=int(spec.get('query_timeout_ms', 20000)), max_branches=int(spec.get('max_branches', 20000)))
     budget = float(spec.get('budget_s', 600))
     path_limit = float(spec.get('path_limit_s', 120))
@@ -293,6 +297,8 @@ def run_job(spec):
                                            actions=len(rec.actions(ctx.E))))
 
     try:
+        if lemma_fails:
+            raise core.HarnessError('; '.join(lemma_fails))
         outcome = eng.explore(body, U.pre, deadline=t0 + budget)
     except core.HarnessError as ex:
         outcome = 'harness_error'
